@@ -151,6 +151,9 @@ type scenario struct {
 	Setup []env.Op `json:"setup,omitempty"`
 	Ops   []env.Op `json:"ops"`
 	Big   bool     `json:"big,omitempty"` // schedule tree too large for complete enumeration
+	// Variant: flag variant of install‖install with the same tree on the unchanged code; the
+	// quick tier explores it preemption-bounded, the thorough tier completely
+	Variant bool `json:"variant,omitempty"`
 }
 
 const relName = "rel"
@@ -171,15 +174,19 @@ func atLimit(n int) []env.Op {
 
 var scenarios2 = []scenario{
 	{Name: "empty: install‖install", Ops: []env.Op{inst(false), inst(false)}},
-	{Name: "empty: install‖install --replace", Ops: []env.Op{inst(false), inst(true)}},
+	{Variant: true, Name: "empty: install‖install --replace", Ops: []env.Op{inst(false), inst(true)}},
 	{Name: "deployed: upgrade‖upgrade", Setup: atLimit(1), Ops: []env.Op{up(0), up(0)}},
 	{Name: "deployed: upgrade‖install", Setup: atLimit(1), Ops: []env.Op{up(0), inst(false)}},
 	{Name: "deployed: upgrade‖install --replace", Setup: atLimit(1), Ops: []env.Op{up(0), inst(true)}},
 	{Big: true, Name: "at limit 1: upgrade‖upgrade max-history=1", Setup: atLimit(1), Ops: []env.Op{up(1), up(1)}},
 	{Big: true, Name: "at limit 2: upgrade‖upgrade max-history=2", Setup: atLimit(2), Ops: []env.Op{up(2), up(2)}},
 	{Big: true, Name: "at limit 3: upgrade‖upgrade max-history=3", Setup: atLimit(3), Ops: []env.Op{up(3), up(3)}},
-	{Name: "empty: install‖install --atomic", Ops: []env.Op{inst(false), instAtomic()}},
-	{Name: "empty: install --atomic‖install --atomic", Ops: []env.Op{instAtomic(), instAtomic()}},
+	{Variant: true, Name: "empty: install‖install --atomic", Ops: []env.Op{inst(false), instAtomic()}},
+	{Variant: true, Name: "empty: install --atomic‖install --atomic", Ops: []env.Op{instAtomic(), instAtomic()}},
+	// an upgrade of a name that is being installed for the first time: refused with "has no
+	// deployed releases" (nothing there yet) or operation-in-progress (pending-install), or it
+	// runs after the install has finished
+	{Name: "empty: install‖upgrade", Ops: []env.Op{inst(false), up(0)}},
 }
 
 func instAtomic() env.Op { return env.Op{Kind: "install", Atomic: true, NoHooks: true} }
@@ -188,6 +195,7 @@ var scenarios3 = []scenario{
 	{Name: "empty: install‖install‖install", Ops: []env.Op{inst(false), inst(false), inst(false)}},
 	{Name: "deployed: upgrade‖upgrade‖upgrade", Setup: atLimit(1), Ops: []env.Op{up(0), up(0), up(0)}},
 	{Name: "deployed: upgrade‖upgrade‖install", Setup: atLimit(1), Ops: []env.Op{up(0), up(0), inst(false)}},
+	{Name: "empty: install‖upgrade‖upgrade", Ops: []env.Op{inst(false), up(0), up(0)}},
 	{Name: "at limit 2: upgrade‖upgrade‖upgrade max-history=2", Setup: atLimit(2), Ops: []env.Op{up(2), up(2), up(2)}},
 }
 
